@@ -118,3 +118,83 @@ def sweep(blt, opts, stride=1, nproc=16, offset=0):
         res = pool.map(_work, [(blt, opts, c, full) for c in chunks if c])
     bad = [b for r in res for b in r]
     return dict(points=len(ks), line_events=nlines, actions=len(full), failures=bad)
+
+# ------------------------------------------------------------------ the command-line driver (Droop.main)
+def _main_run(path, argv, k):
+    """Droop.main(Options.parse(argv)) with a KeyboardInterrupt at the k-th line event of package code inside Election.count()
+    (k=None: uninterrupted); returns (output text or None, struck?, exception name or None)"""
+    import_droop()
+    import Droop
+    from droop.options import Options
+    from droop.election import Election
+    Election.prog = staticmethod(lambda m: None)
+    root = os.path.join(REPO, 'droop') + os.sep
+    st = dict(n=0, armed=False, hit=False)
+    def tr(frame, event, arg):
+        code = frame.f_code
+        if not code.co_filename.startswith(root):
+            return tr if os.path.basename(code.co_filename) == 'Droop.py' else None
+        if event == 'call' and code.co_name == 'count' and code.co_filename.endswith('election.py'): st['armed'] = True
+        if event == 'line' and st['armed'] and k is not None:
+            st['n'] += 1
+            if st['n'] == k:
+                st['hit'] = True
+                sys.settrace(None)
+                raise KeyboardInterrupt
+        return tr
+    options = Options.parse(list(argv) + [path])
+    sys.settrace(tr)
+    try:
+        try:
+            out = Droop.main(options)
+        except BaseException as x:
+            return None, st['hit'], type(x).__name__
+    finally:
+        sys.settrace(None)
+    return out, st['hit'], None
+
+def _main_work(args):
+    blt, argv0, ks = args
+    import tempfile, shutil, itertools
+    d = tempfile.mkdtemp(prefix='c19main')
+    bad = []; pts = 0
+    try:
+        path = os.path.join(d, 'e.blt')
+        with open(path, 'w') as f: f.write(blt)
+        full, _, err = _main_run(path, argv0 + ['report=false', 'json=true'], None)
+        if err is not None: return [], 0
+        full_acts = [json.dumps(a, sort_keys=True) for a in json.loads(full)['actions']]
+        for k in ks:
+            for rep, dmp, jsn in itertools.product((True, False), repeat=3):
+                if not (rep or dmp or jsn): continue
+                flags = ['report=%s' % str(rep).lower(), 'dump=%s' % str(dmp).lower(), 'json=%s' % str(jsn).lower()]
+                out, hit, err = _main_run(path, argv0 + flags, k)
+                if not hit: continue
+                pts += 1
+                w = dict(k=k, flags=' '.join(flags), entry='Droop.main')
+                if err is not None:
+                    bad.append(dict(w, kind='c19-render-fails', rendering='main', exception=err)); continue
+                if rep and MARK_REPORT not in out: bad.append(dict(w, kind='c19-unmarked', rendering='report'))
+                if (dmp or jsn) and MARK_LOG not in out: bad.append(dict(w, kind='c19-unmarked', rendering='dump/json'))
+                if jsn and not rep and not dmp:
+                    try:
+                        acts = [json.dumps(a, sort_keys=True) for a in json.loads(out)['actions']]
+                        body = [a for a in acts if MARK_LOG not in a]
+                        if body != full_acts[:len(body)]: bad.append(dict(w, kind='c19-not-a-prefix', n_actions=len(body)))
+                    except Exception as x:
+                        bad.append(dict(w, kind='c19-json-invalid', message=str(x)[:100]))
+    finally:
+        shutil.rmtree(d, ignore_errors=True)
+    return bad, pts
+
+def main_sweep(blt, opts, npoints=6, nproc=8):
+    """the same election through the command-line entry point: interrupts at npoints line events spread over the count x every
+    combination of report/dump/json"""
+    full, nlines = full_run(blt, opts)
+    argv0 = ['%s=%s' % (k, str(v).lower() if isinstance(v, bool) else v) for k, v in sorted(opts.items())]
+    ks = sorted(set(max(1, (nlines * (2 * i + 1)) // (2 * npoints)) for i in range(npoints)))
+    chunks = [ks[i::nproc] for i in range(nproc)]
+    ctx = multiprocessing.get_context('fork')
+    with ctx.Pool(nproc) as pool:
+        res = pool.map(_main_work, [(blt, argv0, c) for c in chunks if c])
+    return dict(points=sum(p for _, p in res), failures=[b for r, _ in res for b in r])
